@@ -434,6 +434,16 @@ def op_send(M, ch, tr, st, rng, s, other, kind, buffer_reuse, closed_loop):
             st.fault("redo_new_force")
     if kind == "addon":
         f = f * [1.0, 0.1, 10.0][ch.draw(3, "addon_scale")]
+    # the force vector is "1d array_like": other dtypes / containers (values made exactly
+    # representable first, so that the model's float64 history is what was sent)
+    # Only integer arrays: a float32 force vector makes generator AND batch solver work in
+    # single precision in places (NumPy keeps float32 for `python_float * float32_array`), so
+    # they agree to float32 round-off only - not a defect, and the 1e-10 oracle would demand
+    # more than C08 states (false alarm met in round 2, DESIGN 11.4); lists are outside the
+    # documented "1d ndarray".
+    fform = ch.weighted([12, 2], "force_form") if not s.sys.cplx else 0
+    if fform == 1:
+        f = np.round(f)
     # model update (the rules of the docstring)
     if i > 0:
         s.Fm[:, i] = f
@@ -447,6 +457,9 @@ def op_send(M, ch, tr, st, rng, s, other, kind, buffer_reuse, closed_loop):
         st.fault("buffer_reuse")
     else:
         arg = f.copy()
+        if fform == 1:
+            arg = f.astype(np.int64)
+            st.fault("force_int")
     s.ops.append(f"s{s.id}.send({i}) [{kind}]")
     tr.shape("send", s.id, kind, i if i < 0 else i - s.last)
     tr.ev("force", s.id, i, f)
@@ -693,5 +706,5 @@ EXPECTED_FAULTS = [
     "redo_same_force", "redo_new_force", "jump_back_1", "jump_back_far", "addon", "addon_then_advance", "addon_then_redo",
     "redo_then_advance", "addon_order0", "buffer_reuse", "closed_loop_force", "two_sessions_interleaved", "nt_1", "rf_only",
     "rb_only", "static_ic", "complex_coefficients", "f2x_probe", "addon_twice", "instance_reused", "same_instance_tsolve",
-    "same_instance_fsolve", "long_session",
+    "same_instance_fsolve", "long_session", "force_int",
 ]
